@@ -221,11 +221,11 @@ fn substring(args: &[data::Value]) -> Result<data::Value, EvalError> {
 }
 
 fn to_lower_case(s: &str) -> Result<data::Value, EvalError> {
-    Ok(data::Value::from_string(s.to_lowercase()))
+    Ok(data::Value::Str(s.to_lowercase()))
 }
 
 fn to_upper_case(s: &str) -> Result<data::Value, EvalError> {
-    Ok(data::Value::from_string(s.to_uppercase()))
+    Ok(data::Value::Str(s.to_uppercase()))
 }
 
 fn is_null(args: &[data::Value]) -> Result<data::Value, EvalError> {
